@@ -14,7 +14,7 @@ Cl3Async == [nodes |-> [i \in Node |-> NodeCfg3(i, TRUE, FALSE, FALSE)], conf |-
 Actors3 == [Tick |-> {}, Campaign |-> {1, 2}, Propose |-> {1, 2}, ProposeConfChange |-> {}, ReadIndex |-> {},
             Crash |-> {1, 3}, TransferLeader |-> {}, ForgetLeader |-> {}, ReportUnreachable |-> {}, ReportSnapshot |-> {}]
 Bound3 == [Tick |-> 0, Campaign |-> 2, Propose |-> 1, ProposeConfChange |-> 0, ReadIndex |-> 0, Crash |-> 1, Dup |-> 1, Drop |-> 0,
-           Snapshot |-> 0, Compact |-> 0, TransferLeader |-> 0, ForgetLeader |-> 0, ReportUnreachable |-> 0, ReportSnapshot |-> 0, Defer |-> 0,
+           Snapshot |-> 0, Compact |-> 0, TransferLeader |-> 0, ForgetLeader |-> 0, ReportUnreachable |-> 0, ReportSnapshot |-> 0, Defer |-> 0, Atomic |-> 0,
            Term |-> 2, Index |-> 3, Net |-> 5]
 Psz3 == {3}
 NoCCs3 == {}
